@@ -201,9 +201,13 @@ harness! { fn c13_qf_quotient_remainder_b4r60() { qr_case(4, 60); } }
 
 // ---- union: Ok => enc(A ∪ B); Err <=> |A ∪ B| > N, state restored; other operand untouched ----
 fn step_union<const N: usize, const R: usize>(bq: usize, br: usize, fixed_a: Option<u32>) {
+    step_union_ab::<N, R>(bq, br, fixed_a, None)
+}
+
+fn step_union_ab<const N: usize, const R: usize>(bq: usize, br: usize, fixed_a: Option<u32>, fixed_b: Option<u32>) {
     // partitioned over the receiving set A (concrete per harness) to keep each CBMC run small
     let ma: u32 = match fixed_a { Some(m) => m, None => any() };
-    let mb: u32 = any();
+    let mb: u32 = match fixed_b { Some(m) => m, None => any() };
     assume(ma < (1u32 << (N * R)) && mb < (1u32 << (N * R)));
     assume(popcount(ma) <= N && popcount(mb) <= N);
     let la = enc::<N, R>(ma);
@@ -240,6 +244,16 @@ qf_union_harness!(c06_qf_union_b1r1_a8, 2, 2, 1, 1, Some(8), 6);
 qf_union_harness!(c06_qf_union_b1r1_a9, 2, 2, 1, 1, Some(9), 6);
 qf_union_harness!(c06_qf_union_b1r1_a10, 2, 2, 1, 1, Some(10), 6);
 qf_union_harness!(c06_qf_union_b1r1_a12, 2, 2, 1, 1, Some(12), 6);
+// 4 slots: `other` is the full table {(0,0),(0,1),(1,0),(2,0)} -- one cluster in which TWO run quotients are pending at
+// once while it is walked -- received by every subset of it (the only receivers for which the union fits)
+harness! {
+    #[kani::unwind(12)]
+    fn c06_qf_union_b2r1_two_pending_runs() {
+        let ma: u32 = any();
+        assume(ma & !0b10111 == 0);
+        step_union_ab::<4, 2>(2, 1, Some(ma), Some(0b10111));
+    }
+}
 // larger configurations (thorough): receiving set symbolic
 qf_union_harness!(c06_qf_union_b1r2, 2, 4, 1, 2, None, 6);
 qf_union_harness!(c06_qf_union_b2r1, 4, 2, 2, 1, None, 12);
